@@ -17,8 +17,9 @@ def rule_a(ctx):
     edges, wit = lock_order(ctx, "C18.a", floor=4)
     L = lockinfo(F)
     # the fallback lock is only ever taken while the data lock is held
-    data = [l for l in L.locks() if "HalfLock<signal_hook_registry::SignalData>" in l and l.endswith("write_mutex")]
-    fb = [l for l in L.locks() if "HalfLock<core::option::Option<signal_hook_registry::Prev>>" in l and l.endswith("write_mutex")]
+    mx = "." + Roles(F).mutex[1]
+    data = [l for l in L.locks() if "HalfLock<signal_hook_registry::SignalData>" in l and l.endswith(mx)]
+    fb = [l for l in L.locks() if "HalfLock<core::option::Option<signal_hook_registry::Prev>>" in l and l.endswith(mx)]
     if len(data) != 1 or len(fb) != 1:
         raise AnchorLost("data / fallback writer mutexes: %s %s" % (data, fb))
     # judged in the normal form of every public registry function (the acquisition may sit in a private helper called with the data lock held)
@@ -44,7 +45,7 @@ def rule_a(ctx):
 
 
 def rule_b(ctx):
-    poison_rules(ctx, "C18.b", require_tolerant=lambda l: "write_mutex" in l or "HalfLock" in l, floor=3)
+    poison_rules(ctx, "C18.b", require_tolerant=lambda l: "HalfLock" in l, floor=3)
 
 
 def rule_c(ctx):
